@@ -61,7 +61,14 @@ claim("C06", "value-flow bindings and writer codec tables over SignEFIVariable a
       "CertData = SignedData with outer ContentInfo stripped, detached (id-data), dwLength += len of exactly those bytes; one descriptor object whose timestamp is signed and which is emitted before the unchanged payload. "
       "Acceptance by firmware and the clock value are not decided.", "DESIGN.md §4 C06")
 
+claim("C01", "affine evaluation of the hashed ranges per type-switch case compared with offsets computed from the debug/pe struct layouts (go/types); SSA value identity between the sorted and the hashed section table; comparator evaluation over the ordering domain",
+      "Decides layout agreement: for PE32 and PE32+ the three hashed header ranges are [0,checksum) (checksum+4, DataDirectory[4]) (entry+8, SizeOfHeaders) with e_lfanew from offset 0x3c; the section table that is hashed is the one sorted ascending "
+      "by file offset, empty sections skipped, each part over SizeOfRawData; the tail is the data after the sections minus the certificate table, padded to 8; the digest is Sum(nil) of one io.Copy over the hash content. "
+      "The digest value for all images and multi.ReadAt arithmetic are not decided.", "DESIGN.md §4 C01")
+claim("C03", "affine equalities and value-flow bindings over AppendSignature / Open / Parse; writer table of the WIN_CERTIFICATE header; dominance of mutation by the success edge of signing",
+      "Decides: header constants and dwLength = 8+len(sig) for the same sig; certificate table and directory Size grow by dwLength + pad with both pad values from one PaddingBytes(dwLength,8) call, entry before pad; a new table starts at the padded "
+      "end of file and an existing table keeps its address; the re-encoded directory entry is emitted; Open concatenates first part, entry, rest, padding, table contiguously; signing precedes mutation and commits to SHA-256 of the hash content. "
+      "That the output verifies, and byte-exact output for all images, are not decided.", "DESIGN.md §4 C03")
+
 NA["C16"] = ("acceptance of third-party signatures depends on the bytes other tools emit at run time (attribute order/encoding "
              "chosen by OpenSSL/sbsign); the source holds no representation of them, so no structural condition beyond C04/C13 exists to check statically")
-for _i in ["C01","C03"]:
-    NA.setdefault(_i, "rule set for this property not built yet in this round (see DESIGN.md Appendix C); no static verdict is claimed")
